@@ -183,7 +183,7 @@ theorem fireTimed_K (s : St) (when kind : Nat) (h : K s) (hn : nextTimed s = som
 theorem advance_K : ∀ (fuel t : Nat) (strict : Bool) (s : St), K s → K (advance fuel t strict s) := by
   intro fuel
   induction fuel with
-  | zero => intro t strict s h; exact h
+  | zero => intro t strict s h; exact settle_K fuelDefault s h
   | succ n ih =>
     intro t strict s h
     unfold advance
@@ -211,7 +211,7 @@ theorem arrive_K (s : St) (t : Nat) (h : K s) : K (arrive s t) := by
 
 set_option maxHeartbeats 32000000 in
 theorem submit_core_K (s : St) (p : Producer) (h : K s) :
-    K (let s := { s with event := false, unfinished := s.unfinished + 1, submitted := s.submitted ++ pitems p }
+    K (let s := { s with event := false, unfinished := s.unfinished + 1, submitted := s.submitted ++ pitems p, subTimes := s.subTimes ++ [s.now], lastSub := s.now }
        if s.pc = Pc.idle then { s with queue := s.queue ++ [p] }
        else match s.getting with
          | some g =>
@@ -227,7 +227,7 @@ theorem submit_core_K (s : St) (p : Producer) (h : K s) :
 
 set_option maxHeartbeats 32000000 in
 theorem fput_core_K (s : St) (p : Producer) (h : K s) :
-    K (let s := { s with unfinished := s.unfinished + 1, submitted := s.submitted ++ pitems p }
+    K (let s := { s with unfinished := s.unfinished + 1, submitted := s.submitted ++ pitems p, subTimes := s.subTimes ++ [s.now], lastSub := s.now }
        if s.pc = Pc.idle then { s with queue := s.queue ++ [p] }
        else match s.getting with
          | some g =>
